@@ -901,3 +901,64 @@ func runSXMode(c *load.Ctx, r *report.RuleResult, name string) {
 		r.OK(k, "", fmt.Sprintf("%d abstract states", count[k]))
 	}
 }
+
+// --- events synthesised at the end of input stay inside the text ---------------------------------------
+
+func init() {
+	for _, name := range []string{"json", "schema", "enum"} {
+		name := name
+		register(&Rule{ID: "SX-eofspan-" + name, Min: 2, Run: func(c *load.Ctx, r *report.RuleResult) { runSXEofSpan(c, r, name) },
+			Doc: "scanner " + name + ": what is closed at the end of input ends at the end of input: in every reachable abstract state in which the scanner accepts the end of the text, every lexical event it delivers there has its end offset no further than one past the last byte (the convention for a token cut off by the end of the text) — an end-of-input rule that advances the index once per closed lexeme puts the second closing event two past the end, and whoever turns that span into a length or a slice reads outside the text"})
+	}
+}
+
+func runSXEofSpan(c *load.Ctx, r *report.RuleResult, name string) {
+	sp := scannerSpecs[name]
+	g := exploreScanner(c, name, sp)
+	if g.err != nil {
+		r.Unk("anchor|"+sp.rel, "", g.err.Error())
+		return
+	}
+	count := map[string]int{}
+	bad := map[string]bool{}
+	for n, res := range g.eof {
+		if res == nil || res.Kind != "end" {
+			continue
+		}
+		step := baseStepName(implStepName(g.m, n.st))
+		key := "eofspan|impl=" + step
+		count[key]++
+		if bad[key] {
+			continue
+		}
+		for _, ev := range res.Events {
+			if off, ok := relToLast(ev.End); ok && off > 1 {
+				bad[key] = true
+				r.Bad(key, c.Pos(g.m.next.Pos()), fmt.Sprintf("at the end of the text %q the event %s ends %d bytes past the last byte (all events delivered there: %s)", n.path, ev.Type, off, evsString(res.Events)))
+				break
+			}
+		}
+	}
+	for _, k := range sortedKeys(count) {
+		if !bad[k] {
+			r.OK(k, "", fmt.Sprintf("%d accepting end-of-input state(s): every event ends within the text or one past it", count[k]))
+		}
+	}
+	if len(count) == 0 {
+		r.Unk("anchor|eof states", "", "no state accepts the end of input")
+	}
+}
+
+// relToLast parses "L", "L+2", "L-1" (offset relative to the last consumed byte).
+func relToLast(s string) (int, bool) {
+	if s == "L" {
+		return 0, true
+	}
+	if strings.HasPrefix(s, "L+") || strings.HasPrefix(s, "L-") {
+		n := 0
+		if _, err := fmt.Sscanf(s[1:], "%d", &n); err == nil {
+			return n, true
+		}
+	}
+	return 0, false
+}
